@@ -377,6 +377,13 @@ pub fn run(ctx: &Ctx) -> (Stats, Spec) {
         let inv = Inv { text: text.into(), ordering: Some(ord.into()), t: true, v: true, r: true, ..Default::default() };
         check_inv(ctx, &mut st, &inv, &format!("fixed-{}", k));
     }
+    // ordering files larger than any I/O buffer: the names come after ~20 KiB of comments / blank lines
+    for (i, pad) in [format!("\"{}\"\n", "o".repeat(20_000)), "\n".repeat(12_000), "\"c\" ; \n".repeat(2_500)].iter().enumerate() {
+        k += 1;
+        let inv = Inv { text: "(a ^ b) | (c & -d)".into(), ordering: Some(format!("d {} c\n{}b a", pad, pad)), t: true, r: true, channel: (i % 3) as u8, ..Default::default() };
+        check_inv(ctx, &mut st, &inv, &format!("bigord-{}", k));
+        st.bump("large_ordering_files");
+    }
     let spec = Spec {
         rule: "random formulas (<= 6 names, plain and non-ASCII / primed / long names, 0..6 free variables) x filter in every accepted spelling or absent x channel (--evaluate, file, stdin) x ordering file (absent, permutation, subset, superset with unused names, repeats, separators incl. keywords / comments / numbers) x {-t, -v, -t -v, -m, -b N, -r}; tables with 31..130 columns (or / and / implication chains; rows judged by three-valued evaluation, pairwise disjointness and an exact 128-bit count of covered assignments); every third case is re-run through the other two channels and every fourth with -b 1 and -b 2 (stdout must be identical). distinct = (formula, option set); non-trivial = >= 2 free variables and >= 3 printed rows.".into(),
         assumptions: vec![
